@@ -12,14 +12,14 @@ import (
 // HeaderJSON is the API's header object, numbers kept as json.Number so that no
 // precision is lost and out-of-range values are visible.
 type HeaderJSON struct {
-	Hash       string      `json:"hash"`
-	Version    json.Number `json:"version"`
-	Prev       string      `json:"prevBlockHash"`
-	Merkle     string      `json:"merkleRoot"`
-	Timestamp  json.Number `json:"creationTimestamp"`
-	Bits       json.Number `json:"difficultyTarget"`
-	Nonce      json.Number `json:"nonce"`
-	Work       json.Number `json:"work"` // string in headers API, number in tips API
+	Hash      string      `json:"hash"`
+	Version   json.Number `json:"version"`
+	Prev      string      `json:"prevBlockHash"`
+	Merkle    string      `json:"merkleRoot"`
+	Timestamp json.Number `json:"creationTimestamp"`
+	Bits      json.Number `json:"difficultyTarget"`
+	Nonce     json.Number `json:"nonce"`
+	Work      json.Number `json:"work"` // string in headers API, number in tips API
 }
 
 // StateJSON is the API's header-with-state object.
